@@ -238,9 +238,18 @@ pub fn eval_node<F: FnMut(&GraphColoredVertices, &str)>(
                     // get a domain set from EvalContext, can use unwrap as it is previously checked
                     let domain_set = eval_context.domain_raw_sets.get(domain.as_str()).unwrap();
 
-                    // check edge case of an empty domain (in that case we cannot restrict the domain,
-                    // there would be an error)
-                    if domain_set.is_empty() {
+                    // restrict the var domain in unit BDD of the graph
+                    let var_domain = compute_valid_domain_for_var(graph, domain_set, &var);
+
+                    // check edge case of no admissible value for the variable, for any color
+                    // (in that case we cannot restrict the graph, there would be an error)
+                    if graph
+                        .unit_colored_vertices()
+                        .intersect(&var_domain)
+                        .is_empty()
+                    {
+                        // the variable is no longer free
+                        eval_context.free_var_domains.remove(&var);
                         return match op.clone() {
                             HybridOp::Bind => graph.mk_empty_colored_vertices(),
                             HybridOp::Exists => graph.mk_empty_colored_vertices(),
@@ -249,8 +258,6 @@ pub fn eval_node<F: FnMut(&GraphColoredVertices, &str)>(
                         };
                     }
 
-                    // restrict the var domain in unit BDD of the graph
-                    let var_domain = compute_valid_domain_for_var(graph, domain_set, &var);
                     let restricted_graph = restrict_stg_unit_bdd(graph, &var_domain);
 
                     let child_eval = eval_node(
